@@ -4,6 +4,8 @@
 //!
 //! Learn more about Humphrey Auth [here](https://humphrey.whenderson.dev/auth/index.html).
 
+#![allow(unexpected_cfgs)]
+
 #![warn(missing_docs)]
 
 #[cfg(feature = "humphrey")]
